@@ -65,7 +65,7 @@ struct C03 : Scenario {
             return p;
         }
         p["scenario"] = "S-RUN"; p["kind"] = runkind ? "run" : "static";
-        GenOpts o; o.max_steps = tier == "thorough" ? 10 : 7; o.max_actions = runkind ? 3 : 2; o.max_udq = 2; o.restart_safe_conditions = false; o.reparent_groups = true; o.late_edits = true; o.geo_kws = true; o.udq_unary_minus = true; o.tuning_vfp = true;
+        GenOpts o; o.max_steps = tier == "thorough" ? 10 : 7; o.max_actions = runkind ? 3 : 2; o.max_udq = 2; o.restart_safe_conditions = false; o.reparent_groups = true; o.late_edits = true; o.geo_kws = true; o.udq_unary_minus = true; o.tuning_vfp = true; o.family_snippets = true; o.family_static_free = true;
         p["model_seed"] = static_cast<long long>(rng.next() >> 8); p["gen"] = o.to_json(); p["physics_seed"] = static_cast<long long>(rng.next() >> 16);
         p["tail_seed"] = static_cast<long long>(rng.next() >> 8);
         Json ms = Json::array();
